@@ -155,9 +155,15 @@ Definition needs_pi (a : satom) (row : list nslot) : option bool :=
   | None => None
   | Some t =>
       match sa_h a with
-      | None => (* unbracketed: implicit hydrogens fill what a pi bond leaves open *)
+      | None => (* unbracketed: implicit hydrogens fill what a pi bond leaves open; a neutral N / P / As / O / S / Se / Te
+                   whose substituents already bring it to its higher valence (t + 2: S(=O), P(=O)(C), ...) is satisfied
+                   by them, one short of it (n(=O)) needs the pi bond *)
+                let hi := negb (str_eqb (sa_elem a) (lit "C")) && (sa_charge a =? 0) in
                 if t =? sigma row then Some false
-                else if sigma row <? t then Some true else None
+                else if sigma row <? t then Some true
+                else if hi && (sigma row =? t + 2) then Some false
+                else if hi && (sigma row =? t + 1) then Some true
+                else None
       | Some h => let v := sigma row + Z.of_N h in
                   if v =? t then Some false else if v =? t - 1 then Some true else None
       end
